@@ -27,6 +27,15 @@ class SV:
     def __bool__(self):
         raise Undecided("python truth value of symbolic %r requested by engine code" % (self,))
 
+    # convenience for sidecar code (ghost counters): SV + int, SV - int
+    def __add__(self, o):
+        return conc(SV(self.t + (o.t if isinstance(o, SV) else o), self.ty))
+
+    __radd__ = __add__
+
+    def __sub__(self, o):
+        return conc(SV(self.t - (o.t if isinstance(o, SV) else o), self.ty))
+
 
 class Ref:
     """A mutable heap object; state lives in ctx.heap[oid]."""
